@@ -305,7 +305,7 @@ func embeddedOverride(t reflect.Type, ov map[reflect.Type]bool) (reflect.Type, b
 			et = et.Elem()
 		}
 		tagName, _, _ := strings.Cut(sf.Tag.Get("json"), ",")
-		if et.Kind() != reflect.Struct || sf.Tag.Get("json") == "-" || (sf.IsExported() && tgen.ValidTagName(tagName)) {
+		if et.Kind() != reflect.Struct || sf.Tag.Get("json") == "-" || tgen.ValidTagName(tagName) {
 			continue
 		}
 		if ov[et] {
@@ -338,12 +338,12 @@ func orderedJSONFieldNames(t reflect.Type) []string {
 				if et.Kind() == reflect.Pointer {
 					et = et.Elem()
 				}
-				if et.Kind() == reflect.Struct && !(sf.IsExported() && tgen.ValidTagName(tn)) {
+				if et.Kind() == reflect.Struct && !tgen.ValidTagName(tn) {
 					walk(et, append(append([]int{}, prefix...), i))
 					continue
 				}
 			}
-			if !sf.IsExported() {
+			if !sf.IsExported() && !tgen.EmbeddedStruct(sf) {
 				continue
 			}
 			name := sf.Name
